@@ -32,6 +32,7 @@ import (
 	"bytes"
 	"encoding/binary"
 	"io"
+	"io/ioutil"
 )
 
 import (
@@ -109,8 +110,25 @@ func parseVersion2(reader *bufio.Reader) (header *Header, err error) {
 		state.ProxyErrInvalidHeader.Inc(1)
 		return nil, ErrUnsupportedProtocolVersionAndCommand
 	}
-	// If command is LOCAL, header ends here
+	// If command is LOCAL, the connection was established on purpose by the
+	// sender itself (e.g. health check): the address block carries nothing to
+	// use, but the rest of the header (family/protocol, length and <length>
+	// bytes) is still there and must be skipped.
 	if header.Command.IsLocal() {
+		var rest [3]byte
+		if _, err := io.ReadFull(reader, rest[:]); err != nil {
+			if err == io.EOF {
+				// nothing follows the command byte
+				return header, nil
+			}
+			state.ProxyErrReadHeader.Inc(1)
+			return nil, ErrCantReadLength
+		}
+		length := binary.BigEndian.Uint16(rest[1:])
+		if _, err := io.CopyN(ioutil.Discard, reader, int64(length)); err != nil {
+			state.ProxyErrReadHeader.Inc(1)
+			return nil, ErrInvalidLength
+		}
 		return header, nil
 	}
 
